@@ -5,7 +5,7 @@ TIER="${1:-quick}"; shift
 export GOFLAGS=-mod=mod GOPROXY=off GOSUMDB=off GOTOOLCHAIN=local
 cd /verif
 MUTS=("$@"); [ ${#MUTS[@]} -eq 0 ] && MUTS=($(ls -d seeded/C*-* | xargs -n1 basename))
-CHECKS=$(jq -r '.checks[].property_id' MANIFEST.json)
+CHECKS=${ONLY:-$(jq -r '.checks[].property_id' MANIFEST.json)}   # ONLY="C10 C14": refresh just these columns
 OUT=/verif/seeded/MATRIX.tsv
 TMP=$(mktemp)
 for M in "${MUTS[@]}"; do
@@ -19,9 +19,9 @@ for M in "${MUTS[@]}"; do
     # shares their workload); every other cell of the matrix is still computed
     if [ "${FAST:-0}" = 1 ]; then
       case "$ID" in
-        C09) case "$TARGET" in C09|C02|C14) ;; *) continue;; esac;;
+        C09) case "$TARGET" in C09|C02|C14|C08) ;; *) continue;; esac;;
         C02) case "$TARGET" in C02|C10|C09) ;; *) continue;; esac;;
-        C14) case "$TARGET" in C14|C13|C11|C15) ;; *) continue;; esac;;
+        C14) case "$TARGET" in C14|C13|C11|C15|C01) ;; *) continue;; esac;;
         C20) case "$TARGET" in C20|C01|C14) ;; *) continue;; esac;;
       esac
     fi
